@@ -249,11 +249,37 @@ func (P *Program) VerifyFunc(fn *ssa.Function, fc *FuncContract) *FuncResult {
 			res.Err = s.Err
 			return res
 		}
+		// every call-site assertion must have matched at least one call (vacuity guard)
+		for _, at := range fc.Ats {
+			if !fr.atHit[at.C.Label] {
+				s.addObl(&Obligation{Name: shortKey(res.Key) + "#at:" + at.Callee + ":" + at.C.Label + ":no-matching-call", Props: qualProps(fc, at.C), Kind: "call-site-assert", Label: at.C.Label, Goal: "false", Src: "call to " + at.Callee + " expected in this function: " + at.C.Src})
+			}
+		}
 		post := env.child()
 		post.st = out
 		post.old = s.entry
 		bindResults(post, fn.Signature, rets)
+		// ghost updates at exit
+		for _, g := range fc.Sets {
+			gv, ok := P.Specs.Ghost[g.Name]
+			if !ok {
+				s.fail("sets: unknown ghost variable %s", g.Name)
+				break
+			}
+			so, _ := P.specType(gv.Sort)
+			v := s.eval(post, g.E)
+			s.getMap(out, "H:"+g.Name, so)
+			nv := s.define("H:"+g.Name, so, v.T)
+			defer func(name, val string) {}(g.Name, nv)
+			post.vars["$set:"+g.Name] = TV{T: nv, S: so}
+		}
+		for _, g := range fc.Sets {
+			out.Maps["H:"+g.Name] = post.vars["$set:"+g.Name].T
+		}
 		for _, e := range fc.Ensures {
+			if e.Implicit {
+				continue
+			}
 			g := s.evalBool(post, e.E)
 			s.addObl(&Obligation{Name: shortKey(res.Key) + "#ensures:" + e.Label, Props: qualProps(fc, e), Kind: "ensures", Label: e.Label, Goal: fmt.Sprintf("(=> %s %s)", out.Guard, g), Src: e.Src})
 			// accept-path cover for implications
